@@ -615,6 +615,7 @@ fn dump(t: &PolicyTable) -> Val {
                         })
                         .collect(),
                 ),
+                Val::b(a.needs_rpki),
             ])
         }))
     };
